@@ -1,5 +1,5 @@
 CONFIG = {
-    "lean_modules": ["MithrilModel.Properties.C13"],
+    "lean_modules": ["MithrilModel.Properties.C13", "MithrilModel.Handlers.C13"],
     "theorems": [
         "C13.C13_rollback_exact", "C13.C13_kept_roots_cover_kept_blocks", "C13.C13_roots_function_of_blocks",
         "C13.C13_ranges_idempotent", "C13.C13_import_refines", "C13.C13_convergence",
@@ -7,6 +7,14 @@ CONFIG = {
         "C13.C13_skip_counterexample", "C13.C13_rollback_below_store_counterexample", "C13.C13_rollback_below_store",
         "C13.C13_partial_range_counterexample", "C13.C13_signing_root_ignores_beyond_aligned",
         "C13.C13_beacon_inside_stored_range_counterexample",
+        # the cardano_tx table: primary key = transaction hash, insert or ignore, on delete cascade
+        "C13.C13_rollback_removes_transactions", "C13.C13_reincluded_transaction_under_new_block",
+        "C13.C13_transactions_refine", "C13.C13_roots_read_through_join", "C13.C13_goodTx_decidable",
+        "C13.C13_reinclusion_needs_cascade",
+        "Import.runT_refines", "Import.tinv_backward", "Import.tinv_forwards", "Import.cascade_no_orphan",
+        "Import.rollback_removes_transactions", "Import.reincluded_under_new_block", "Import.txsIn_rowsOf",
+        "Import.rangesRun_join", "Import.poll_forwards_sorted", "Import.goodTxB_iff", "Import.insertTx_ignored",
+        "Handlers.C13.rootNew_local", "Handlers.C13.rootLegacy_local",
         # lemmas of the model files the property theorems restate
         "Import.poll_refines", "Import.run_refines", "Import.import_refines", "Import.importF_refines",
         "Import.rangesRun_cached", "Import.rollbackRoots_cached", "Import.rinv_forwards", "Import.rinv_backward",
@@ -20,6 +28,13 @@ CONFIG = {
                   "are the roots of all complete ranges computed from the stored blocks, provided the script is Good (forwards extend the "
                   "chain, the initial echo roll-back is a no-op, every other roll-back targets a known point) and the last complete range is "
                   "covered; hence any two histories that fold to the same chain converge (C13_convergence; fresh import = empty store). "
+                  "Transactions are explicit: the model state holds the rows of cardano_tx (transaction hash -> block hash; primary key = the transaction "
+                  "hash ALONE, insert or ignore, on delete cascade on every deletion of blocks) and every root is computed from the join with the stored "
+                  "blocks. For every Good script in which no chain presented by the node carries a transaction twice (GoodTx, decidable, evaluated by the "
+                  "driver) the table is exactly the rows of the stored blocks (C13_transactions_refine): after a roll-back no row of a removed block remains "
+                  "(C13_rollback_removes_transactions) and a transaction of an abandoned block that the new fork includes again — in any block — is stored "
+                  "under its new block and under no other (C13_reincluded_transaction_under_new_block); the roots read through the join are the roots of "
+                  "the stored blocks (C13_roots_read_through_join); without the cascade the re-included transaction is lost (C13_reinclusion_needs_cascade). "
                   "Good is decidable (goodB_iff, classB_none_iff); the Lean driver evaluates it on the replies the REAL streamer consumed in "
                   "every generated import, so the theorem applies to each history it accepts, and classifies the others. The hypotheses are "
                   "necessary: proved counter-examples for the roll-back below the store (class 2), the partially imported range (class 3) and the "
@@ -33,7 +48,10 @@ CONFIG = {
                   "run once from scratch on the simulator's chain. Block numbers are assumed contiguous along a chain (sparse numbering only "
                   "without the no-agency behaviour: there a forward consumed above the target is lost). The refinement theorem does not cover "
                   "pruned stores, the legacy root table is covered by the same theorem with the 'no transaction' skip predicate, the panic of "
-                  "the foreign key and prune_transaction are modelled in the driver only (compared by K). The in-memory test double "
+                  "the foreign key (a transaction row that is NOT ignored on its primary key and names a block that is not stored) and prune_transaction "
+                  "(with its cascade) are modelled in the driver only (compared by K). The sqlite store is opened as the signer and the aggregator open it: "
+                  "ConnectionOptions::EnableForeignKeys + build_pool, every store call on a pooled connection; S also reads the table cardano_tx itself "
+                  "(not through the join of the read queries): it must hold no row of a block that is not stored. The in-memory test double "
                   "InMemoryChainDataStore is NOT used: its roll-back keeps roots by block number (start < highest remaining block) and it "
                   "appends without ignore — it is not a model of the production repository. Roots are bit-exact (leaf strings, Blake2s-256 and "
                   "the MMR builder run in Lean).",
@@ -55,9 +73,12 @@ CONFIG = {
                 "mithril-common/src/entities/block_range.rs"],
     "rule": "case = one history = (max_roll_forwards_per_poll in {1,2,3,5,10,30,100}, events over fork trees of <= 140 blocks: chain growth 1..100, "
             "chain switches at the tip / a range boundary and its neighbours / the first block / the origin / the highest imported block / inside the "
-            "streamer's buffer, imports with targets at/below/above the tip, at range boundaries, at batch-cap boundaries and non-monotone, mutations "
-            "scheduled after the k-th reply of an import, restarts, reconnections, pruning); 7 witness histories, 140 deterministic grid histories "
-            "(roll-back to every buffer position, to range boundaries +-2, targets around the cap, a restart between every two steps) and 900 random "
+            "streamer's buffer, forks that RE-INCLUDE the transactions of the blocks they abandon (mempool: the same transaction hash in an earlier / later "
+            "block, the same or another block range, the same block number under another block hash, across successive switches; 3 histories out of 4), imports with targets at/below/above the tip, at range boundaries, at batch-cap boundaries and non-monotone, mutations "
+            "scheduled after the k-th reply of an import, restarts, reconnections, pruning); 8 witness histories, 140 deterministic grid histories "
+            "(roll-back to every buffer position, to range boundaries +-2, targets around the cap, a restart between every two steps), 60 deterministic "
+            "re-inclusion histories (6 placements of the abandoned transactions x batch 4/100 x {plain, pruning before the switch, second switch A->B->C, "
+            "restart + scan + pruning between the two switches, switch while fork A is being read}) and 800 random "
             "ones (quick) in three modes (clean 60%, prune 15%, wild 25%); the request holds the replies the real streamer consumed; every history is "
             "non-trivial; distinct = distinct request lines",
     "trivial_tags": [],
@@ -66,7 +87,8 @@ CONFIG = {
                      "Lean implementation of Blake2s-256 (MithrilModel/Blake2.lean), validated against the blake2 crate by the C12 harness"],
     "assumptions": ["layer 2: a Cardano node's chain-sync server behaves as the simulator (see level_note)",
                     "block numbers are contiguous along a chain; slot 0 is only the origin",
-                    "at most 9 transactions per block in generated cases (transaction-hash order = generation order)"],
+                    "transaction hashes are fixed-width decimal names (hash order = numeric order of the ids); a block carries 0..3 transactions of its own plus the re-included ones (up to about a dozen in the re-inclusion grid), delivered in either order",
+                    "no chain presented by the node carries a transaction twice (GoodTx; evaluated on every import: class letter x otherwise — never generated)"],
     "goals_not_proved": ["C13_refines_all_scripts_goal is FALSE (C13_rollback_below_store_counterexample): known findings C13-rollback-below-store(-panic)",
                          "roots without the coverage hypothesis: FALSE (C13_partial_range_counterexample): known finding C13-partial-range-root",
                          "C13_signing_root_ignores_beyond_goal is FALSE (C13_beacon_inside_stored_range_counterexample): known finding C13-beacon-inside-stored-range; the aligned case is proved",
